@@ -122,7 +122,9 @@ class Module:
             raise AnchorError(f'{self.rel}: does not parse: {e}') from e
         from .normalize import normalize
 
-        self.normalised = normalize(self.tree)
+        from .normalize import desugar_walrus
+
+        self.normalised = desugar_walrus(self.tree) + normalize(self.tree)
         self.lines = self.source.splitlines()
         self.functions: dict[str, FuncInfo] = {}
         self.classes: dict[str, ClassInfo] = {}
